@@ -164,6 +164,10 @@ pub enum Op {
     /// The wall clock jumps (forwards or backwards) to this many seconds past the UNIX epoch;
     /// `None`: to some time before 1970, where `Epoch::now()` reports an error.
     SetClock { unix_s: Option<u64> },
+    /// Only in runs whose clients name the file by a RELATIVE path: the process changes its
+    /// working directory to a sibling directory that holds another file under the same name
+    /// (`away`), or back home. The same relative path then names a different file.
+    Chdir { away: bool },
     /// Several clients load concurrently, each on its own thread and its own path; the seeded
     /// scheduler of `conc.rs` decides the interleaving at read granularity.
     Concurrent {
@@ -195,6 +199,7 @@ impl Op {
             Op::Allow => 'A',
             Op::Restart { .. } => 'X',
             Op::SetClock { .. } => 'T',
+            Op::Chdir { .. } => 'H',
             Op::Concurrent { .. } => 'C',
         }
     }
@@ -211,6 +216,13 @@ pub struct Scenario {
     /// What `stat` on the real path reports during this run (see `RealDisk::stat_lies`).
     #[serde(default)]
     pub stat_lies: u8,
+    /// The clients name the file by a relative path (the working directory is the file's
+    /// directory at the start of the run; `Chdir` operations move the process around).
+    #[serde(default)]
+    pub relative: bool,
+    /// The image found under the same name in the other directory (relative runs only).
+    #[serde(default)]
+    pub decoy: usize,
     /// What the wall clock reads when the run starts (seconds past the UNIX epoch; `None`: before
     /// 1970). Always simulated: no run ever reads the real clock.
     #[serde(default = "default_clock")]
@@ -550,6 +562,23 @@ pub fn generate(seed: u64, run_index: u64, infos: &[PoolInfo]) -> Scenario {
     };
 
     let mut ops: Vec<Op> = Vec::with_capacity(n_ops + 3);
+    // One sequential run in twelve names the file by a relative path and moves about.
+    let relative = !matches!(stratum, Stratum::ByteSweep(_) | Stratum::Concurrent)
+        && infos.len() > 1
+        && rng.chance(1, 12);
+    let decoy = if relative {
+        let mut d = rng.urange(0, infos.len() - 1);
+        for _ in 0..infos.len() {
+            if !imgs.contains(&d) && infos[d].len < 20_000 {
+                break;
+            }
+            d = (d + 1) % infos.len();
+        }
+        d
+    } else {
+        0
+    };
+    let mut away = false;
     let mut current = imgs[0]; // predicted image on disk
     let mut loads = 0usize;
 
@@ -626,6 +655,10 @@ pub fn generate(seed: u64, run_index: u64, infos: &[PoolInfo]) -> Scenario {
     }
 
     while ops.len() < n_ops && stratum != Stratum::Concurrent {
+        if relative && rng.chance(1, 5) {
+            away = !away;
+            ops.push(Op::Chdir { away });
+        }
         let r = rng.below(100);
         let client = rng.usize_below(n_clients);
         if r < 45 {
@@ -686,6 +719,9 @@ pub fn generate(seed: u64, run_index: u64, infos: &[PoolInfo]) -> Scenario {
     }
 
     // Fault-free tail: liveness once faults stop.
+    if away {
+        ops.push(Op::Chdir { away: false });
+    }
     ops.push(Op::Allow);
     ops.push(Op::Load {
         client: 0,
@@ -712,6 +748,8 @@ pub fn generate(seed: u64, run_index: u64, infos: &[PoolInfo]) -> Scenario {
     Scenario {
         seed,
         stat_lies,
+        relative,
+        decoy,
         clock,
         stratum: match stratum {
             Stratum::ByteSweep(i) => format!("bytesweep@{i}"),
